@@ -135,7 +135,7 @@ func tIsCountersignature(n *vNodeT, depth int) bool {
 	if nMajor(sig) != 2 || nIsIndef(sig) || len(nBytes(sig)) == 0 {
 		return false
 	}
-	return tProtectedOK(nChild(n, 0), depth) && tHeaderMapOK(nChild(n, 1), false, depth)
+	return tProtectedOK(nChild(n, 0), depth) && tHeaderMapOK(nChild(n, 1), false, depth) && !tIVClash(nChild(n, 0), nChild(n, 1))
 }
 
 func tEntryOf(k, v *vNodeT, depth int) specEntry {
@@ -326,7 +326,7 @@ func (fp *faultPlan) node(name string, conforming func() *vNodeT) *vNodeT {
 	return conforming()
 }
 
-const nLayerFeatures = 11
+const nLayerFeatures = 14
 
 // mkLayer: protected bstr and unprotected map of one layer: a minimal
 // conforming skeleton plus ONE feature that exercises a rule (one-hot, to keep
@@ -391,6 +391,16 @@ func mkLayer(name string, feature int, fp *faultPlan, depth int) (*vNodeT, *vNod
 	case 10:
 		if depth < 1 {
 			add(&up, 11, func() *vNodeT { return mkCountersig(name+".cs", 8, fp, depth+1) })
+		}
+	case 11: // IV and Partial IV split over the two buckets of one layer (each well-typed on its own)
+		add(&pp, 5, bs("iv"))
+		add(&up, 6, bs("piv"))
+	case 12:
+		add(&pp, 6, bs("piv"))
+		add(&up, 5, bs("iv"))
+	case 13: // the same split inside a nested countersignature
+		if depth < 2 {
+			add(&up, 11, func() *vNodeT { return mkCountersig(name+".cs", 11, fp, depth+1) })
 		}
 	}
 	prot := fp.node(name+".prot", func() *vNodeT {
